@@ -231,3 +231,54 @@ class T4FileCard(object):
                     return bytearray(b'\x90\x00')
             return bytearray(b'\x6A\x82')
         return bytearray(b'\x6D\x00')
+
+
+class T2TagAdversary(nfc.tag.tt2.Type2Tag):
+    """A Type 2 Tag seen through the page commands (C08): every READ answers 16 arbitrary octets or fails with a
+    command error; SECTOR SELECT succeeds or fails."""
+    def __init__(self):
+        self.commands = 0
+
+    def read(self, page):
+        self.commands = self.commands + 1
+        if nondet_bool():
+            raise nfc.tag.tt2.Type2TagCommandError(nfc.tag.tt2.INVALID_PAGE_ERROR)
+        return nondet_bytearray(16, 16)
+
+    def sector_select(self, sector):
+        if nondet_bool():
+            raise nfc.tag.tt2.Type2TagCommandError(nfc.tag.tt2.INVALID_SECTOR_ERROR)
+        return sector
+
+
+import nfc.tag.tt1
+
+
+class T1TagAdversary(nfc.tag.tt1.Type1Tag):
+    """A Type 1 Tag seen through the read commands (C08), with exactly what the real command methods guarantee
+    about an arbitrary tag: RALL returns any octets, READ8 at most 8, RSEG exactly 128, or a command error; block
+    and segment numbers out of range are refused with ValueError as the real methods do."""
+    def __init__(self):
+        self.commands = 0
+
+    def read_all(self):
+        self.commands = self.commands + 1
+        if nondet_bool():
+            raise nfc.tag.tt1.Type1TagCommandError(nfc.tag.TIMEOUT_ERROR)
+        return nondet_bytearray(0, None)
+
+    def read_block(self, block):
+        if block < 0 or block > 255:
+            raise ValueError("invalid block number")
+        self.commands = self.commands + 1
+        if nondet_bool():
+            raise nfc.tag.tt1.Type1TagCommandError(nfc.tag.TIMEOUT_ERROR)
+        return nondet_bytearray(0, 8)
+
+    def read_segment(self, segment):
+        if segment < 0 or segment > 15:
+            raise ValueError("invalid segment number")
+        self.commands = self.commands + 1
+        if nondet_bool():
+            raise nfc.tag.tt1.Type1TagCommandError(nfc.tag.TIMEOUT_ERROR)
+        return nondet_bytearray(128, 128)
